@@ -248,8 +248,9 @@ class Result:
 
     def add(self, ob):
         d = self.obligations.setdefault(ob.name, dict(status="unsat", kind=ob.kind, queries=0, time=0.0, models=[],
-                                                      detail="", unknown_reasons=[]))
+                                                      detail="", unknown_reasons=[], backends={}))
         d["queries"] += 1
+        d["backends"][ob.backend] = d["backends"].get(ob.backend, 0) + 1
         d["time"] += ob.time
         if ob.status == "sat":
             d["status"] = "sat"
